@@ -764,9 +764,23 @@ func (x *c10) fanOut() {
 					}
 					cnt := 0
 					for _, cd := range p.Conds {
-						if cd.NEv >= p.LoopAt[inner.li.Hdr] {
-							cnt++
+						if cd.NEv < p.LoopAt[inner.li.Hdr] {
+							continue
 						}
+						// the outer loop's own continue-condition can carry the same event count as the inner header
+						if outer != nil && outer.idxPhi != nil {
+							olv := outer.li.LV[outer.idxPhi]
+							ilvIn := false
+							for _, lv := range inner.li.LV {
+								if cd.T.ContainsKey(lv.Key()) {
+									ilvIn = true
+								}
+							}
+							if olv != nil && cd.T.ContainsKey(olv.Key()) && !ilvIn {
+								continue
+							}
+						}
+						cnt++
 					}
 					if cnt != 1 {
 						ok, why = false, "subscribers are skipped conditionally"
